@@ -53,6 +53,34 @@ _canon_files = _canon_forms
 _canon_post = _canon_forms
 
 
+def _seek_probe(req):
+    """File-like fidelity of the upload windows: relative and absolute seeks (also beyond both ends) followed by
+    reads must agree with the upload's own full content.  Returns a description of the first inconsistency."""
+    for key, v in req.files.items():
+        for u in (v if isinstance(v, list) else [v]):
+            if not hasattr(u, 'raw_filename'):
+                continue
+            f = u.file
+            f.seek(0)
+            full = f.read()
+            n = len(full)
+            for off, whence in ((-(n + 7), 2), (-1, 2), (-n, 2), (0, 2), (-(n + 1), 1), (-2, 1), (3, 0), (-5, 0),
+                                (n + 9, 0), (1, 1), (-(2 * n + 3), 2)):
+                before = f.tell()
+                base = {0: 0, 1: before, 2: n}[whence]
+                want = min(max(base + off, 0), n)
+                try:
+                    got_pos = f.seek(off, whence)
+                    data = f.read()
+                except Exception as e:   # noqa
+                    return f'{key}: seek({off}, {whence}) on a {n}-byte upload raised {type(e).__name__}: {e}'
+                if got_pos != want or data != full[want:]:
+                    return (f'{key}: after seek({off}, {whence}) on a {n}-byte upload tell()={got_pos} (expected {want}) and '
+                            f'read() gives {data[:40]!r}... ({len(data)} bytes), the upload\'s content from there is '
+                            f'{full[want:want + 40]!r}... ({n - want} bytes)')
+    return None
+
+
 def _canon_files_round_robin(req, k):
     """Like _canon_files, but the uploads are read k bytes at a time in round-robin order,
     with a read of request.body in between and no explicit seek: each upload is its own
@@ -155,6 +183,8 @@ def body_request(wire, sched, *, B, M=None, cl=None, chunked=False, ctype=None, 
                         seen['forms'] = _canon_forms(req.forms)
                     elif t == 'files':
                         seen['files'] = _canon_files(req.files)
+                    elif t == 'files_seek':
+                        seen['seek_problem'] = _seek_probe(req)
                     elif t.startswith('files_rr:'):
                         seen['files'] = _canon_files_round_robin(req, int(t.split(':')[1]))
                     elif t == 'POST':
